@@ -282,6 +282,8 @@ Fixpoint elab_fields (rec : texpr -> option tdesc) (intlit : bool) (p : program)
   match fs with
   | [] => Some ([], [])
   | fd :: r =>
+    (* `if field.ID < 0 { return nil, fmt.Errorf("negative field id ...") }` (fix cc65c3e; FieldID is a uint16) *)
+    if f_id fd <? 0 then None else
     if field_kept target fd then
       match rec (f_type fd) with
       | None => None
